@@ -122,6 +122,11 @@ func lists(u []string, maxLen int) []am.S {
 func algebra(rep *kit.Report) {
 	u := []string{"A", "B", "C"}
 	ls := lists(u, 3)
+	if kit.Thorough() {
+		// 4 names, lists up to length 4: 342 lists, 116,964 pairs
+		u = []string{"A", "B", "C", "D"}
+		ls = lists(u, 4)
+	}
 	bad := func(sig, format string, a ...any) {
 		rep.Violate("c20:algebra:"+sig, fmt.Sprintf(format, a...), map[string]any{"part": "algebra", "sig": sig})
 	}
@@ -225,7 +230,11 @@ func algebra(rep *kit.Report) {
 	}
 	// ParseStates: drops unknown names and duplicates, keeps known ones
 	m := am.New(context.Background(), am.Schema{"A": {}, "B": {}, "C": {}}, nil)
-	for _, a := range lists([]string{"A", "B", "Z"}, 3) {
+	psLen := 3
+	if kit.Thorough() {
+		psLen = 5
+	}
+	for _, a := range lists([]string{"A", "B", "Z"}, psLen) {
 		rep.Add("evaluations", 1)
 		safe("ParseStates", func() {
 			want := setOf(a)
@@ -237,8 +246,12 @@ func algebra(rep *kit.Report) {
 	}
 	// Time algebra on small vectors
 	var times []am.Time
-	for x := uint64(0); x < 3; x++ {
-		for y := uint64(0); y < 3; y++ {
+	tmax := uint64(3)
+	if kit.Thorough() {
+		tmax = 6
+	}
+	for x := uint64(0); x < tmax; x++ {
+		for y := uint64(0); y < tmax; y++ {
 			times = append(times, am.Time{x, y})
 		}
 	}
@@ -304,7 +317,7 @@ func algebra(rep *kit.Report) {
 			bad("Time.Sum", "%v.Sum(nil) = %d", t1, r)
 		}
 	}
-	for tick := uint64(0); tick < 6; tick++ {
+	for tick := uint64(0); tick < 6+tmax*10; tick++ {
 		act := tick%2 == 1
 		if am.IsActiveTick(tick) != act {
 			bad("IsActiveTick", "IsActiveTick(%d)", tick)
@@ -565,6 +578,14 @@ type callRes struct {
 }
 
 // combos enumerates argument tuples (capped).
+// maxCombos is the number of argument tuples tried per function and phase.
+func maxCombos() int {
+	if kit.Thorough() {
+		return 96
+	}
+	return 24
+}
+
 func combos(cands [][]reflect.Value, cap int) [][]reflect.Value {
 	out := [][]reflect.Value{{}}
 	for _, c := range cands {
@@ -653,7 +674,7 @@ func oneCall(t *testing.T, name, phase string, getFn func(e *envT) reflect.Value
 				}
 				cands = append(cands, g)
 			}
-			all := combos(cands, 24)
+			all := combos(cands, maxCombos())
 			if comboIdx >= len(all) {
 				res.Case = "END"
 				return false
@@ -1076,7 +1097,7 @@ func child(t *testing.T) {
 			if ph == "inhandler" && waits(tg.name) {
 				continue // waiting for the machine from inside its own handler cannot progress (documented for Eval)
 			}
-			for ci := 0; ci < 24; ci++ {
+			for ci := 0; ci < maxCombos(); ci++ {
 				id := fmt.Sprintf("%s#%d@%s", tg.name, ci, ph)
 				if done[id] {
 					continue
